@@ -203,8 +203,9 @@ class Names:
     """value ids: 0 is reserved (void / no value); strings get 1, 2, ..."""
 
     def __init__(self):
-        self.ids = {}
-        self.rev = {0: ''}
+        # two texts the implementation compares by VALUE have fixed ids (Parse/MethodTail.v VAL_override, VAL_zero)
+        self.ids = {'override': 1, '0': 2}
+        self.rev = {0: '', 1: 'override', 2: '0'}
 
     def id(self, s):
         if s not in self.ids:
